@@ -67,6 +67,20 @@ func (w *world) cryptoEntries() ([]*entry, error) {
 			return nil, err
 		}
 		full := cat(cf, pt)
+		// the same entry point with authentic messages: the byte string in the place of confounder|plaintext is mutated (every
+		// prefix, so also shorter than a confounder) and then sealed with a valid integrity tag, as a key holder could
+		es = append(es, &entry{name: "crypto.DecryptMessage(" + etName(et) + ", authentic message of any length)", min: 100,
+			slots: []slot{{name: "confounder+plaintext", plain: cat(cf, msg[:20]), kind: hostile.Binary, seal: func(m []byte) []byte {
+				c, err := kcrypto.SealRaw(et, k.Value, 2, m)
+				if err != nil {
+					return []byte{} // the cipher mode cannot carry this length
+				}
+				return c
+			}}},
+			call: func(in []byte) result {
+				_, err := crypto.DecryptMessage(in, gk, 2)
+				return errRes(err)
+			}})
 		es = append(es, &entry{name: "etype.VerifyIntegrity(" + etName(et) + ")", items: []item{{name: "ct", data: ct, kind: hostile.Binary}}, min: 1000, call: func(in []byte) result {
 			if ety.VerifyIntegrity(k.Value, in, full, 2) {
 				return rOK
